@@ -7,6 +7,7 @@ import (
 	"fmt"
 	"sort"
 	"strings"
+	"time"
 
 	logutil "github.com/boz/go-logutil"
 	"github.com/boz/kcache"
@@ -38,6 +39,22 @@ func (NopLog) ErrFatal(err error, _ string, _ ...interface{}) error { return err
 func (NopLog) Err(err error, _ string, _ ...interface{}) error      { return err }
 
 var Log logutil.Log = NopLog{}
+
+// SlowLog is NopLog with one slow line: a Debugf whose format starts with Prefix takes D (virtual time). It makes
+// the one stage of the library that logs that line slower than its neighbours - what a slow log sink does to a
+// program - without touching the library.
+type SlowLog struct {
+	NopLog
+	Prefix string
+	D      time.Duration
+}
+
+func (l SlowLog) WithComponent(string) logutil.Log { return l }
+func (l SlowLog) Debugf(f string, _ ...interface{}) {
+	if strings.HasPrefix(f, l.Prefix) {
+		time.Sleep(l.D)
+	}
+}
 
 // Drops counts the "buffer full / overrun" messages the library logged in the current execution (reset by the
 // harness at the start of a run; one execution at a time per process; only read by oracles / vacuity counters).
